@@ -184,6 +184,42 @@ theorem cex_reply_flat_cycle : OnCycle (HoldsByValue gReplyFlat) nComment :=
 theorem wit_via : (EEdge.mk nComment [.option, .vec, .box]).byValue = false ∧ (EEdge.mk nComment [.vec]).byValue = false ∧
     (EEdge.mk nComment [.option, .option]).byValue = true ∧ (EEdge.mk nComment []).byValue = true := by decide
 
+/-! ## untagged unions: declaration order is matching order -/
+
+/-- the chosen variant is the FIRST one that accepts -/
+theorem chooseVariant_first (pre : List UVariant) (v : UVariant) (post : List UVariant) (keys : List Name)
+    (hpre : ∀ w ∈ pre, w.accepts keys = false) (hv : v.accepts keys = true) :
+    chooseVariant (pre ++ v :: post) keys = some v := by
+  unfold chooseVariant
+  induction pre with
+  | nil => simp [hv]
+  | cons w r ih =>
+    have hw : w.accepts keys = false := hpre w (List.mem_cons_self ..)
+    simp only [List.cons_append, List.find?, hw]
+    exact ih (fun x hx => hpre x (List.mem_cons_of_mem _ hx))
+
+/-- a document of member `v` (all its keys are members of `v`) survives whenever no variant declared before `v`
+accepts it: in particular in EVERY order when the members exclude each other through required members -/
+theorem keysPreserved_of_first (pre : List UVariant) (v : UVariant) (post : List UVariant) (keys : List Name)
+    (hpre : ∀ w ∈ pre, w.accepts keys = false) (hv : v.accepts keys = true)
+    (hk : keys.all v.wires.contains = true) : keysPreserved (pre ++ v :: post) keys = true := by
+  unfold keysPreserved
+  rw [chooseVariant_first pre v post keys hpre hv]
+  exact hk
+
+def vOperation : UVariant := { payload := "Operation".toList, required := ["op".toList], wires := ["op".toList, "left".toList, "right".toList] }
+def vConstant : UVariant := { payload := "Constant".toList, required := [], wires := ["value".toList, "unit".toList] }
+def opDoc : List Name := ["op".toList, "left".toList, "right".toList]
+
+/-- `Expr = anyOf[Operation, Constant]`, `Constant` without required members: in spec order the recursive document
+`{"op","left","right"}` is an `Operation` and comes back whole … -/
+theorem wit_permissive_last : keysPreserved [vOperation, vConstant] opDoc = true := by decide
+/-- … with the permissive member declared first it is read as an empty `Constant` and written back as `{}` -/
+theorem cex_permissive_first : keysPreserved [vConstant, vOperation] opDoc = false ∧
+    chooseVariant [vConstant, vOperation] opDoc = some vConstant := by decide
+theorem wit_expected_order : expectedVariantOrder ["Operation".toList, "Constant".toList] ["Constant".toList, "Operation".toList] =
+    ["Operation".toList, "Constant".toList] := by decide
+
 /-! ## non-vacuity: a mutually recursive pair `A ↔ B`, a self-loop `S`, and a leaf -/
 
 def nA : Name := ['A']
